@@ -1012,34 +1012,9 @@ def rule_queue(ctx):
     sb = {c.bb for c in srt.find_calls(lambda c: c.qname in SORT_FNS)}
     seen = srt.reach([0], avoid=ctx.both(inf, lambda n: n in sb))
     skips = [r for r in srt.returns() if r in seen]
-    if not skips:
-        R.ob('Q1-sort-always', srt.path, True, 'the sort helper sorts on every path', ctx.where(srt), props=P)
-    else:
-        flags = set()
-        for (bb, k), gd in srt.guards.items():
-            if gd.kind == 'bool' and ('e', bb, k) in seen:
-                for o in gd.origins:
-                    if o.kind == 'arg' and o.key == 1:
-                        flags |= {p[1] for p in o.path if isinstance(p, tuple) and p[0] == 'f'}
-        ok = len(flags) == 1
-        why = 'the sort can be skipped without a dirty flag of the queue deciding it'
-        if ok:
-            fl = next(iter(flags))
-            qm = [x for x in F.bodies.values() if x.kind == 'AssocFn' and x.impl_self and type_head(x.impl_self) == bu['queue_adt'] and not x.impl_trait]
-            for x in qm:
-                for c in x.find_calls(lambda c: c.qname in ('std::vec::Vec::push', 'std::vec::Vec::swap_remove', 'std::vec::Vec::insert', 'std::vec::Vec::extend', 'std::vec::Vec::append')
-                                      and ctx.has_field(x.orig_operand(c.args[0]), vec_f)):
-                    sets_flag = set()
-                    for (sbb, si, pl, rv, ln) in x.stores:
-                        if ctx.has_field(x.orig_place(pl), fl) and rv['k'] == 'use' and 'k' in rv['op'] and rv['op']['k'].get('int') == '1':
-                            sets_flag.add(sbb)
-                    xinf = ctx.infeasible(x)
-                    before = x.must_before(c.bb, ctx.both(xinf, lambda n: n in sets_flag)) is None
-                    after = x.must_after(c.bb, ctx.both(xinf, lambda n: n in sets_flag)) is None
-                    if not (before or after):
-                        ok = False
-                        why = '%s disturbs the order of the vector (%s) without marking it as needing a sort, while the sort is skipped when the flag `%s` is clear' % (x.name, c.name, fl)
-        R.ob('Q1-sort-always', srt.path, ok, 'the sort is skipped only under a dirty flag that every order-disturbing mutation sets' if ok else why, ctx.where(srt), props=P)
+    R.ob('Q1-sort-always', srt.path, not skips, 'the sort helper sorts on every path' if not skips
+         else 'the sort can be skipped: topological ranks change whenever an executing task adds a dependency (add_edge re-orders), so a queue that was sorted earlier is not known to be sorted now',
+         ctx.where(srt), props=P)
     # Q4: candidate test orientation in pop_least
     b = bu['q_pop_least']
     ts = [c for c in b.calls.values() if is_callee(ctx, c, roles.trans_req)]
